@@ -334,7 +334,8 @@ func (r Wrapper) getClientMetadataFromRequest(ctx context.Context, params oauthP
 			return nil, &oauth.OAuth2Error{Code: oauth.InvalidRequest, Description: "client_metadata and client_metadata_uri are mutually exclusive", InternalError: err}
 		}
 		err = json.Unmarshal([]byte(metadataString), &metadata)
-		if err != nil {
+		if err != nil || metadata == nil {
+			// (a JSON null is unmarshalled into a nil pointer without an error)
 			return nil, &oauth.OAuth2Error{Code: oauth.InvalidRequest, Description: "invalid client_metadata", InternalError: err}
 		}
 	} else {
@@ -354,7 +355,8 @@ func (r Wrapper) getPresentationDefinitionFromRequest(ctx context.Context, param
 			return nil, &oauth.OAuth2Error{Code: oauth.InvalidRequest, Description: "presentation_definition and presentation_definition_uri are mutually exclusive"}
 		}
 		err = json.Unmarshal([]byte(pdString), &presentationDefinition)
-		if err != nil {
+		if err != nil || presentationDefinition == nil {
+			// (a JSON null is unmarshalled into a nil pointer without an error)
 			return nil, &oauth.OAuth2Error{Code: oauth.InvalidRequest, Description: "invalid presentation_definition", InternalError: err}
 		}
 	} else {
